@@ -31,6 +31,15 @@ CLAIMED = {
         note="Trusted: Coq kernel, translator, harness; metadata values abstracted to naturals (0 = empty dict); writer accept/reject is an oracle.",
         technique="Coq proof (labelling invariant + refinement to the list of accepted writes) + AST-generated kernels + differential correspondence",
         design="7/C11"),
+    "C15": dict(
+        text="Coq theorems over a transition system transcribing rust/src/parallel_map.rs (source text pinned): for every source length, thread count >= 1, set of panicking tasks and every schedule of the consumer and worker threads: "
+             "results come back exactly in source order, a pass that ends normally has delivered every task, at most min(T,n) tasks are outstanding, some thread can always move while the pass runs (no deadlock), and a panicking task "
+             "is never swallowed (the pass cannot end normally). Tie: rust_harness, a crate with a path dependency on /repo/rust built on every run, drives the real parallel_map with scrambled completion orders, early drops and panics; "
+             "results and the number of source pulls at every result equal the model's. PARTIAL: early-drop liveness, the decoders/pyo3 layer and the epoch loop are validated on the implementation only: Rust reader vs Python reader "
+             "on datasets in all four supported compressions x thread counts x shuffled/ordered/early exit.",
+        note="Trusted: Coq kernel, text pin + hand transcription, rust_harness; std::sync::mpsc FIFO/unbounded semantics; pyo3, flate2, lz4_flex, yoke not verified.",
+        technique="Coq proof (ring-of-workers invariant over all schedules) + pinned Rust source + differential against the real function and the Python reader",
+        design="7/C15"),
     "C16": dict(
         text="Coq theorems about the readinto loop of hash_checksums with buffer size, sentinel, slice and one-object-per-listed-name shape regenerated "
              "from utils.py: for every streaming hash family (section hypotheses: streaming law), every file, every algorithm tuple (order, repetition) and "
